@@ -37,6 +37,8 @@ try:
     if demo_dir is None:
         m = re.search(r"(pkg/[A-Za-z0-9_/]+|cmd/[A-Za-z0-9_/]+|internal/[A-Za-z0-9_/]+)", text[:2000])
         demo_dir = m.group(1).rstrip("/") if m else None
+        while demo_dir and (os.path.basename(demo_dir).startswith("zz_") or not os.path.isdir(os.path.join(wt, demo_dir))):
+            demo_dir = os.path.dirname(demo_dir)
     if demo_dir is None:
         raise SystemExit("cannot tell the demo's package directory; pass --demo-dir")
     demo_dst = os.path.join(wt, demo_dir, "zz_seed_demo_test.go")
